@@ -788,6 +788,179 @@ func nontrivial(c, res string) bool {
 	return res == "err dangling" || res == "err conflict"
 }
 
+// ---------------------------------------------------------------- Neighbours (hunt mode)
+
+// mapLeaf rewrites the k-th leaf (in-order) of e with f; returns the new tree and the number of leaves seen.
+func mapLeaf(e ast.Expr, k *int, f func(ast.Expr) ast.Expr) ast.Expr {
+	switch x := e.(type) {
+	case ast.Add:
+		l := mapLeaf(x.X, k, f)
+		return ast.Add{X: l, Y: mapLeaf(x.Y, k, f)}
+	case ast.Double:
+		return ast.Double{X: mapLeaf(x.X, k, f)}
+	case ast.Shift:
+		return ast.Shift{X: mapLeaf(x.X, k, f), S: x.S}
+	}
+	*k--
+	if *k == -1 {
+		return f(e)
+	}
+	return e
+}
+
+func countLeaves(e ast.Expr) int {
+	switch x := e.(type) {
+	case ast.Add:
+		return countLeaves(x.X) + countLeaves(x.Y)
+	case ast.Double:
+		return countLeaves(x.X)
+	case ast.Shift:
+		return countLeaves(x.X)
+	}
+	return 1
+}
+
+// mapShift rewrites the k-th shift node.
+func mapShift(e ast.Expr, k *int, f func(ast.Shift) ast.Expr) ast.Expr {
+	switch x := e.(type) {
+	case ast.Add:
+		l := mapShift(x.X, k, f)
+		return ast.Add{X: l, Y: mapShift(x.Y, k, f)}
+	case ast.Double:
+		return ast.Double{X: mapShift(x.X, k, f)}
+	case ast.Shift:
+		in := ast.Shift{X: mapShift(x.X, k, f), S: x.S}
+		*k--
+		if *k == -1 {
+			return f(in)
+		}
+		return in
+	}
+	return e
+}
+
+func freshName(t *ast.Chain, base string) string {
+	used := map[string]bool{}
+	for _, s := range t.Statements {
+		used[string(s.Name)] = true
+	}
+	for i := 0; ; i++ {
+		n := base + strconv.Itoa(i)
+		if !used[n] {
+			return n
+		}
+	}
+}
+
+// perturb returns a copy of t with one statement changed: an operand index moved, a leaf replaced by
+// an index operand, a shift amount changed, a dead statement or an alias inserted, a statement dropped.
+func perturb(r *lib.Rand, t *ast.Chain) *ast.Chain {
+	c := acclib.DecScript(acclib.EncScript(t))
+	n := len(c.Statements)
+	if n == 0 {
+		return c
+	}
+	length := 1
+	if vals, _, rej := acclib.Interp(t); rej == "" {
+		length = len(vals)
+	}
+	i := r.Intn(n)
+	st := &c.Statements[i]
+	switch r.Intn(7) {
+	case 0, 1: // operand index changed / leaf replaced by an index operand
+		k := r.Intn(countLeaves(st.Expr))
+		st.Expr = mapLeaf(st.Expr, &k, func(e ast.Expr) ast.Expr {
+			if o, ok := e.(ast.Operand); ok && r.Bool() {
+				d := int(o) + r.Range(-2, 2)
+				if d < 0 {
+					d = 0
+				}
+				return ast.Operand(d)
+			}
+			return ast.Operand(r.Intn(length + 1))
+		})
+	case 2: // shift amount changed (also to zero)
+		k := r.Intn(4)
+		st.Expr = mapShift(st.Expr, &k, func(s ast.Shift) ast.Expr {
+			d := int(s.S) + r.Range(-2, 2)
+			if d < 0 || r.Chance(1, 4) {
+				d = 0
+			}
+			return ast.Shift{X: s.X, S: uint(d)}
+		})
+	case 3: // a dead statement: a copy of statement i under a fresh name, in front of it
+		dead := ast.Statement{Name: ast.Identifier(freshName(c, "dead")), Expr: st.Expr}
+		c.Statements = append(c.Statements[:i], append([]ast.Statement{dead}, c.Statements[i:]...)...)
+	case 4: // an alias of an earlier name, used by one leaf of statement i
+		if i == 0 {
+			break
+		}
+		j := r.Intn(i)
+		al := ast.Statement{Name: ast.Identifier(freshName(c, "al")), Expr: c.Statements[j].Name}
+		k := r.Intn(countLeaves(st.Expr))
+		ne := mapLeaf(st.Expr, &k, func(ast.Expr) ast.Expr { return al.Name })
+		c.Statements[i].Expr = ne
+		c.Statements = append(c.Statements[:i], append([]ast.Statement{al}, c.Statements[i:]...)...)
+	case 5: // the final statement becomes a bare operand / name (everything before may become dead)
+		last := &c.Statements[n-1]
+		if n > 1 && r.Bool() {
+			last.Expr = c.Statements[r.Intn(n-1)].Name
+		} else {
+			last.Expr = ast.Operand(r.Intn(length + 1))
+		}
+	default: // wrap statement i in one more operation
+		switch r.Intn(3) {
+		case 0:
+			st.Expr = ast.Add{X: st.Expr, Y: ast.Operand(r.Intn(length + 1))}
+		case 1:
+			st.Expr = ast.Double{X: st.Expr}
+		default:
+			st.Expr = ast.Shift{X: st.Expr, S: uint(r.Intn(4))}
+		}
+	}
+	return c
+}
+
+func neighbours(c string, r *lib.Rand, emit func(string)) {
+	f := strings.Split(c, " ")
+	var src, tmpl string
+	switch {
+	case f[0] == "gen" && len(f) == 3:
+		tmpl, src = f[1], string(lib.ParseBytes(f[2]))
+	case f[0] == "runlisting" && len(f) == 3:
+		tmpl, src = "listing", string(lib.ParseBytes(f[1]))
+	default:
+		return
+	}
+	out := func(s string) {
+		h := hex(s)
+		emit("gen " + tmpl + " " + h)
+		if tmpl != "listing" {
+			emit("gen listing " + h)
+		}
+		emit("runlisting " + h + " separate")
+		emit("runlisting " + h + " aliased")
+	}
+	t, err := parse.String(src)
+	if err != nil || hugeShift(t) {
+		for k := 0; k < 8; k++ {
+			out(acclib.Mutate(r, src))
+		}
+		return
+	}
+	for k := 0; k < 12; k++ {
+		u := perturb(r, t)
+		if r.Chance(1, 3) {
+			u = perturb(r, u)
+		}
+		if hugeShift(u) {
+			continue
+		}
+		out(acclib.RenderScript(r, u, false))
+	}
+}
+
 func main() {
-	lib.Main(lib.Prop{ID: "C06", Gen: gen, Run: run, Oracle: oracle, Nontrivial: nontrivial, PanicClass: acclib.PanicClass})
+	lib.Main(lib.Prop{ID: "C06", Gen: gen, Run: run, Oracle: oracle, Nontrivial: nontrivial, PanicClass: acclib.PanicClass,
+		Neighbours: neighbours})
 }
